@@ -257,6 +257,34 @@ pub mod lv {
         }
     }
 
+    /// kinds of non-list tails ("symbol", "vector") of improper lists anywhere inside `v`
+    pub fn improper_tails(v: &Val, out: &mut BTreeSet<&'static str>) {
+        match v {
+            Val::Pair(_) => {
+                let (pairs, tail) = spine(v);
+                match &tail {
+                    Val::Sym(_) => {
+                        out.insert("symbol");
+                    }
+                    Val::Vector(_) => {
+                        out.insert("vector");
+                        improper_tails(&tail, out);
+                    }
+                    _ => {}
+                }
+                for p in pairs.iter() {
+                    improper_tails(&p.car.borrow(), out);
+                }
+            }
+            Val::Vector(x) => {
+                for i in x.items.borrow().iter() {
+                    improper_tails(i, out);
+                }
+            }
+            _ => {}
+        }
+    }
+
     pub fn reaches(from: &Val, target: Id) -> bool {
         match from {
             Val::Pair(p) => {
@@ -663,7 +691,33 @@ pub mod lv {
                         Val::Pair(_) => "pair",
                         Val::Vector(_) => "vector",
                     });
-                    format!("key:{},{}", key.unwrap_or("?"), arg(1).map(|v| shape(&v)).unwrap_or("?"))
+                    let mut tails = BTreeSet::new();
+                    if matches!(s.op, "member" | "assoc") {
+                        for v in [arg(0), arg(1)].iter().flatten() {
+                            improper_tails(v, &mut tails);
+                        }
+                        // the list argument's own tail is not compared by equal?
+                        if let Some(l) = arg(1) {
+                            let mut own = BTreeSet::new();
+                            let (pairs, _) = spine(&l);
+                            for p in pairs.iter() {
+                                improper_tails(&p.car.borrow(), &mut own);
+                            }
+                            if let Some(k) = arg(0) {
+                                improper_tails(&k, &mut own);
+                            }
+                            tails = own;
+                        }
+                    }
+                    let t: Vec<&str> = tails.into_iter().collect();
+                    format!(
+                        "{}{}{}key:{},{}",
+                        if t.is_empty() { "" } else { "tail:" },
+                        t.join("+"),
+                        if t.is_empty() { "" } else { "," },
+                        key.unwrap_or("?"),
+                        arg(1).map(|v| shape(&v)).unwrap_or("?")
+                    )
                 }
                 "map" | "for-each" => {
                     let mut shapes = BTreeSet::new();
@@ -702,7 +756,10 @@ pub mod lv {
                     }
                     None => "?".into(),
                 },
-                "vector-fill!" => format!("fill:{}", arg(1).map(|v| v.kind()).unwrap_or("?")),
+                "vector-fill!" => format!(
+                    "fill:{}",
+                    arg(1).map(|v| if matches!(v, Val::Sym(_)) { "symbol" } else { v.kind() }).unwrap_or("?")
+                ),
                 "vector-copy" => match vlen(&arg(0)) {
                     Some(0) => "vec:empty".into(),
                     Some(n) => match int(1) {
@@ -767,7 +824,13 @@ pub mod lv {
                 "equal?" => {
                     let a = arg(0).map(|v| v.kind()).unwrap_or("?");
                     let b = arg(1).map(|v| v.kind()).unwrap_or("?");
-                    format!("{},{}", a, b)
+                    // improper lists (at any depth) that end in a symbol or a vector
+                    let mut tails = BTreeSet::new();
+                    for v in [arg(0), arg(1)].iter().flatten() {
+                        improper_tails(v, &mut tails);
+                    }
+                    let t: Vec<&str> = tails.into_iter().collect();
+                    format!("{}{}{}{},{}", if t.is_empty() { "" } else { "tail:" }, t.join("+"), if t.is_empty() { "" } else { "," }, a, b)
                 }
                 _ => "-".into(),
             };
@@ -1184,11 +1247,13 @@ pub mod lv {
         /// access path) is probed by a mutation through one path observed
         /// through the other, then undone. `eq?` is not used for identity:
         /// the SUT's `eq?` on pairs compares car and cdr (pinned by the suite).
-        pub fn audits(&mut self, fresh_pairs: &[(usize, Vec<usize>)]) -> Vec<Audit> {
+        pub fn audits(&mut self, fresh_pairs: &[(usize, Vec<usize>)], focus: Option<Id>) -> Vec<Audit> {
             // canonical path of every reachable object, breadth first from p0..p7
             let mut canon: BTreeMap<Id, Sx> = BTreeMap::new();
             let mut queue: std::collections::VecDeque<(Val, Sx)> = Default::default();
             let mut edges: Vec<((Id, usize, Id), Sx, Val)> = vec![];
+            let mut sym_focus: Vec<Audit> = vec![];
+            let mut sym_other: Vec<Audit> = vec![];
             for (i, v) in self.pool.iter().enumerate() {
                 if let Some(v) = v {
                     if let Some(id) = v.obj_id() {
@@ -1219,6 +1284,20 @@ pub mod lv {
                 };
                 let me = v.obj_id().unwrap_or(0);
                 for (slot, cpath, child) in children {
+                    if let Val::Sym(name) = &child {
+                        // a symbol retrieved from a container is that symbol
+                        let a = Audit {
+                            form: Sx::call("eq?", vec![cpath.clone(), quote_sym(name)]),
+                            expect: true,
+                            what: format!("{} is the symbol {}", cpath, name),
+                        };
+                        if Some(me) == focus {
+                            sym_focus.push(a);
+                        } else {
+                            sym_other.push(a);
+                        }
+                        continue;
+                    }
                     if let Some(cid) = child.obj_id() {
                         if canon.contains_key(&cid) {
                             edges.push(((me, slot, cid), cpath, child));
@@ -1240,6 +1319,10 @@ pub mod lv {
                 }
             }
             self.seen_edges = edges.iter().map(|e| e.0).collect();
+            sym_focus.truncate(4);
+            sym_other.truncate(6 - sym_focus.len().min(4));
+            out.append(&mut sym_focus);
+            out.append(&mut sym_other);
             // freshly allocated results must not share their first cell with an argument
             for (k, args) in fresh_pairs.iter() {
                 let r = match self.pool.get(*k).and_then(|v| v.clone()) {
@@ -1335,6 +1418,12 @@ pub mod lv {
             if s.op == "for-each" {
                 pre.push(Sx::call("set!", vec![Sx::sym("log"), Sx::quote(Sx::nil())]));
             }
+            if s.op == "vector-fill!" && s.args.len() == 2 && matches!(res, Res::Unspec) {
+                // R7RS: every element is now `fill`, so the vector is equal? to a new vector of that length and fill
+                let v = arg_sx(&s.args[0]);
+                let rebuilt = Sx::call("make-vector", vec![Sx::call("vector-length", vec![v.clone()]), arg_sx(&s.args[1])]);
+                post = Some((Sx::call("equal?", vec![v, rebuilt]), Sx::Bool(true)));
+            }
             let mut fresh: Vec<(usize, Vec<usize>)> = vec![];
             let expect = match res {
                 Res::Invalid(e) => return Err(format!("{}: {}", step_form(s), e)),
@@ -1389,7 +1478,8 @@ pub mod lv {
                 return Err("pool object too large".into());
             }
             // a fresh result that was pre-existing in the model (append of empty lists returns its last argument) is not fresh
-            let audits = st.audits(&fresh);
+            let focus = target.or_else(|| s.store.and_then(|k| st.pool[k].as_ref().and_then(|v| v.obj_id())));
+            let audits = st.audits(&fresh, focus);
             out.steps.push(ScriptStep {
                 pre,
                 form: step_form(s),
@@ -1555,8 +1645,30 @@ pub mod lv {
             true
         }
 
+        /// a pool slot holding a structurally equal but distinct object
+        fn twin_of(&mut self, a: &Arg) -> Option<Arg> {
+            let v = self.st.val(a).ok()?;
+            let id = v.obj_id()?;
+            let c: Vec<usize> = self.slots(|o| o.obj_id().is_some() && o.obj_id() != Some(id) && equal(o, &v));
+            if c.is_empty() {
+                None
+            } else {
+                Some(Arg::P(c[self.c.below(c.len())]))
+            }
+        }
+
         fn init_object(&mut self) {
             let k = self.free_slot();
+            if !self.steps.is_empty() && self.c.chance(40) {
+                // a structural twin: the same constructor call again, into another slot
+                let j = self.c.below(self.steps.len());
+                let mut s = self.steps[j].clone();
+                if s.store.is_some() && s.store != Some(k) && matches!(s.op, "list" | "cons" | "vector" | "make-vector") {
+                    s.store = Some(k);
+                    self.push(s);
+                    return;
+                }
+            }
             let w = self.c.weighted(&[26, 10, 14, 22, 8, 6, 8, 6]);
             let s = match w {
                 0 => {
@@ -1599,7 +1711,7 @@ pub mod lv {
                 3, 4, 4, 8, 8, 3, 3, 5, 4, // cons car cdr set-car! set-cdr! list length append reverse
                 5, 5, 3, 3, 3, 3, 3, 3, 4, 3, // list-tail list-ref memq memv member assq assv assoc map for-each
                 2, 3, 3, 1, 2, 6, 8, // list? vector make-vector make-vector/1 vector-length vector-ref vector-set!
-                6, 4, 4, 7, 10, 4, // vector-fill! vector->list list->vector vector-copy vector-copy! equal?
+                6, 4, 4, 7, 10, 7, // vector-fill! vector->list list->vector vector-copy vector-copy! equal?
             ];
             let op = OPS[1 + self.c.weighted(&W)];
             let store_k = self.free_slot();
@@ -1678,7 +1790,13 @@ pub mod lv {
                                     Some(Val::Nil) => Some(Arg::Nil),
                                     Some(ref o @ (Val::Pair(_) | Val::Vector(_))) if matches!(op, "member" | "assoc") => {
                                         // an equal? object from the pool, if one is a root
-                                        (0..POOL).find(|i| self.st.pool[*i].as_ref().map(|v| equal(v, o)).unwrap_or(false)).map(Arg::P)
+                                        let cands: Vec<usize> = (0..POOL).filter(|i| self.st.pool[*i].as_ref().map(|v| equal(v, o)).unwrap_or(false)).collect();
+                                        // prefer a distinct object that is merely equal?
+                                        cands
+                                            .iter()
+                                            .find(|i| self.st.pool[**i].as_ref().and_then(|v| v.obj_id()) != o.obj_id())
+                                            .or(cands.first())
+                                            .map(|i| Arg::P(*i))
                                     }
                                     _ => None,
                                 };
@@ -1778,7 +1896,14 @@ pub mod lv {
                 }
                 "equal?" => {
                     let a = self.any_arg();
-                    let b = if self.c.chance(60) { a.clone() } else { self.any_arg() };
+                    let b = match self.c.weighted(&[5, 2, 5]) {
+                        0 => self.any_arg(),
+                        1 => a.clone(),
+                        _ => match self.twin_of(&a) {
+                            Some(t) => t,
+                            None => self.any_arg(),
+                        },
+                    };
                     Some(Step { op, args: vec![a, b], store: None })
                 }
                 _ => None,
